@@ -11,6 +11,7 @@
 #define _GNU_SOURCE
 #include <errno.h>
 #include <fcntl.h>
+#include <signal.h>
 #include <stdint.h>
 #include <stdio.h>
 #include <stdlib.h>
@@ -58,6 +59,15 @@ static int write_atomic(const char* path, const char* data, size_t n) {
 }
 static int unhex(const char* h, char* out) { int n = 0; for (; h[0] && h[1]; h += 2) { unsigned v; sscanf(h, "%2x", &v); out[n++] = (char)v; } return n; }
 
+/* VERIF_ONSIGNAL="key:1,...": like a tool that flushes what it has when it is told to stop, the command writes a
+ * partial first output (in place, not atomically) from its signal handler and exits with the interrupt status */
+static const char* g_sig_out;
+static void on_signal(int sig) {
+  (void)sig;
+  if (g_sig_out) { int fd = open(g_sig_out, O_WRONLY | O_CREAT | O_TRUNC, 0644); if (fd >= 0) { if (write(fd, "partial:signal", 14) < 0) {} close(fd); } }
+  _exit(130);
+}
+
 int main(int argc, char** argv) {
   if (argc < 2 || strcmp(argv[1], "run")) { fprintf(stderr, "usage: vtool run ...\n"); return 2; }
   const char *id = "", *variant = "", *depfile = NULL, *rsp = NULL;
@@ -98,6 +108,10 @@ int main(int argc, char** argv) {
   for (int i = 0; i < nread; i++) {
     size_t n; char* c = slurp(reads[i], &n);
     if (!c) { missing = 1; h = fnv(h, "<missing>,", 10); } else { h = fnv(h, c, n); h = fnv(h, ",", 1); free(c); }
+  }
+  if (envlookup("VERIF_ONSIGNAL", id) && nout) {
+    g_sig_out = outs[0];
+    signal(SIGINT, on_signal); signal(SIGTERM, on_signal); signal(SIGHUP, on_signal);
   }
   /* --- delays / rendez-vous */
   const char* hold = envlookup("VERIF_HOLD", id);
